@@ -391,7 +391,7 @@ fn aliased_axes_lookups(ev: &mut Ev) {
     use vh::ndarray::{s, Array2};
     use vh::ndarray_interp::interp2d::{Bilinear, Interp2D};
     let mut rng = Rng::derive(11, "C11-aliased-axes", &[0]);
-    for round in 0..200u64 {
+    for round in 0..(if cfg!(miri) { 12u64 } else { 200 }) {
         let n = 3 + rng.below(7);
         let ny = if round % 3 == 0 { 2 + rng.below(n) } else { n };
         let len = n.max(2 * ny - 1);
@@ -464,7 +464,7 @@ fn overflowing_span_lookups(ev: &mut Ev) {
         vec![-inf, 0.0, inf],
         vec![0.0, tiny, 2.0 * tiny, 5.0 * tiny],
         vec![-3.0 * tiny, -tiny, 0.0, tiny, 4.0 * tiny, 9.0 * tiny],
-        (0..300).map(|i| i as f64 * tiny).collect(),
+        (0..if cfg!(miri) { 40 } else { 300 }).map(|i| i as f64 * tiny).collect(),
     ];
     for (k, ax) in axes.iter().enumerate() {
         let x = Array1::from(ax.clone());
